@@ -24,8 +24,8 @@ RULE = ('Differential, E1 (Hypothesis): a GeoDataFrame of 1..16 rows with a poin
         'for pack/parquet, whose row multiset must equal the source). Non-trivial: >= 2 partitions and at least one of: empty partition, '
         'all-missing partition, partition covered by the box, provenance other than from_pandas. distinct = distinct cases.')
 ASSUMPTIONS = ['number and divisions of result partitions are not asserted', "sjoin how='right' is documented as unsupported for Dask frames and not exercised"]
-BUDGET = {'quick': {'shards': 16, 'examples': 640, 'min_evaluations': 300},
-          'thorough': {'shards': 16, 'examples': 12800, 'min_evaluations': 6000}}
+BUDGET = {'quick': {'shards': 16, 'examples': 480, 'min_evaluations': 240},
+          'thorough': {'shards': 16, 'examples': 4800, 'min_evaluations': 2400}}
 
 
 def _ids(df):
